@@ -126,7 +126,9 @@ class Zoo:
                 out += g() + "v%d" % i + " = " + a() + ";"
             return out + g() + "in" + g() + a()
         if kind == "with":
-            return "with" + g() + "lib;" + g() + a()
+            # (the body is an absorbable multi-line term in one case out of four: a `with` glues such a body to its own line)
+            body = a() if self.rng.random() >= 0.25 or self.one_line else "''\n      w%s\n\n        v\n    ''" % self.lit()
+            return "with" + g() + "lib;" + g() + body
         if kind == "assert":
             return "assert" + g() + "a;" + g() + a()
         if kind == "lambda":
@@ -216,7 +218,7 @@ class Zoo:
             else:
                 text = "{\n  pre = 1;\n  " + member + ";\n  post = 2;\n}\n"
             return text, {"construct": "inherit", "place": "let_layer" if in_let else "set", "gaps": sorted(set(self.slots)), "gap_seq": list(self.slots)}
-        place = rng.choice(["binding", "binding", "binding", "toplevel", "let_binding", "list_item", "inline_list", "formal_default", "inline_set", "call_arg"])
+        place = rng.choice(["binding"] * 6 + ["toplevel", "let_binding", "list_item"] * 2 + ["inline_list", "formal_default", "inline_set", "call_arg"])
         self.slots = []
         self.extra = {}
         self.extra_nested = None
